@@ -523,7 +523,14 @@ theorem wrapper_bodies :
 
 /-! ## 3. `flags_truthful` -/
 
-/-- a function reported as provided runs the problem's own member (no `not_implemented_error`) -/
+/-- a function reported as provided runs the problem's own member (no `not_implemented_error`).
+    On the hand model this is the first line of `resolveNLP` (`if P f then own member`), i.e. it is
+    *definitional*: that line is the text of `ALPAQA_TE_OPTIONAL_METHOD` (pinned by
+    `te_macros_as_modelled`) and is tied to the code by the op-sequence correspondence.  The
+    statements with content are in `Props/C20_Coverage.lean`: `dl_flags_truthful_nlp/_ocp`
+    (reported-provided ⇔ the table member that the forwarding body dereferences is non-null, over
+    the generated tables), `wrap_transparent_generated`, and `resolveNLP_absent_is_generated_default`
+    (reported-absent ⇒ the generated default kind of that entry). -/
 theorem flags_truthful_provided (P : String → Bool) (m0 : Bool) (f : String)
     (h : teProvides P f = true) : resolveNLP P m0 f = .calls [f] := by
   unfold teProvides at h
